@@ -51,3 +51,28 @@ CLAIMS.update({
           'Lean 4 native_decide exhaustive theorems on generated model + differential correspondence'),
 })
 CLAIMS['C01']['text'] = _FIN + 'Here: add/sub/mul/div (operator trait, const method and recip spellings) for all 2^16 P8E0 pairs. ' + _WIDE
+
+CLAIMS.update({
+ 'C11': C('Theorems: for each of the ten P16E1 functions and the two P8E0 functions, the generated model returns, for EVERY input pattern (all 2^16 / 2^8, native_decide sweep), '
+          'exactly the entry of a committed reference table. The tables are an ORACLE, not a theorem about the real functions: computed by tools/mktables.py with mpmath at 400 bits and '
+          'exact-rational posit rounding, accepting a value only if f(x)(1 +- 2^-300) round alike (symbolically exact cases handled exactly); the implementation is also compared with the '
+          'table on all inputs in both build profiles on every run. PARTIAL: "table = correctly rounded real function" rests on that oracle (no Lean interval-arithmetic certificate yet).',
+          'Lean 4 native_decide exhaustive theorems (model = reference table) + mpmath oracle tables + exhaustive implementation comparison',
+          note=TB + ' mpmath (python3-vt) as the oracle for the real-valued functions.'),
+ 'C18': C('Theorem: P8E0 x.poly1(&[c0,c1]) equals the single rounding of the exact c0*x + c1 for ALL 2^24 (x, c0, c1) (16 native_decide shards). Together with C04.q8_history (every Q8E0 accumulation history is exact) '
+          'the P8E0 stages reduce to to_posit of the exact sum. PARTIAL: degrees 2..18, poly3a/poly4a and P16E1/P32E2 are covered by correspondence and the oracle Spec.poly '
+          '(exact rational fused dot products composed in the documented stages) on structured inputs incl. cancellation and NaR/zero coefficients.',
+          'Lean 4 sharded native_decide theorem + history induction (C04) + differential correspondence against exact-rational staged dot products'),
+ 'C19': C('Theorems on the generated model with every rng.gen_range(lo..hi) turned into an input guarded by its contract: P8E0 all 256 inputs, P16E1 all 2^18 draws (sub_one terminates, result pattern < 1.0), '
+          'P32E2 all 2^27 x 4 draws (16 native_decide shards for from_bits(s) - ONE, plus a kernel-checked bit-level lemma that XOR with a 2-bit value stays below 2^30): every sample is a real posit in [0,1) and no call traps. '
+          'The private helper sub_one is compared with the code on all 2^18 inputs through the --cfg softposit_verif hook; sampling through StdRng and replayed edge streams is checked against the range predicate.',
+          'Lean 4 native_decide exhaustive theorems + symbolic XOR lemma on generated model + hook-based exhaustive correspondence',
+          note=TB + ' rand 0.8 contract assumed: gen_range(lo..hi) returns a value in [lo, hi).'),
+})
+CLAIMS['C04']['text'] = ('Theorems on the generated model, Q8E0: fdp / fdp_one are factored symbolically (all 2^32 states) into q -> norm(q + delta) with delta independent of the accumulator; delta equals the exact +-a*b '
+    '(+-a) for all operand pairs (native_decide); wrap-around addition is exact inside the quire range (omega); INDUCTION over the operation list gives C04.q8_history: after ANY finite sequence of +=/-= of products and single posits '
+    'from the cleared quire whose exact partial sums stay in range, the accumulator holds exactly the sum; NaR is absorbing and sticky (q8_nar_sticky, q8_nar_operand); the tuple/method spellings equal the fdp call for every state. '
+    'Also: one-step-from-zero sweeps for Q8E0 (pairs) and Q16E1 (single posits), to_posit after one product = the product rounded once. '
+    'PARTIAL: Q16E1 history and to_posit on arbitrary states, and Q32E2 (fdp/fdp_one/to_posit are hand models pinned to the Rust source hash) are covered by the history correspondence against the exact-rational Spec fold '
+    '(mixed signs, exact cancellations, terms living in one limb, NaR injection, permutations, all spellings).')
+CLAIMS['C04']['technique'] = 'Lean 4 symbolic factorisation + native_decide per-operand sweeps + induction over histories on generated model; history correspondence against exact rational fold'
